@@ -49,21 +49,31 @@ type AccessNode struct {
 // NewAccessNode registers the handler as GnosisAccessNode.Start does (gnosisaccessnode/node.go:39) and fills the
 // storage with the fixture's keyper set and eon key the way onNewKeyperSet / onNewEonKey do (those two are
 // unexported methods of a struct whose storage cannot be reached, hence repeated here: node.go:63-101).
-func NewAccessNode(_ context.Context, fx *Fixture) (*AccessNode, error) {
+func NewAccessNode(ctx context.Context, fx *Fixture) (*AccessNode, error) {
+	return NewAccessNodeWith(ctx, fx, true, true)
+}
+
+// NewAccessNodeWith builds an access node whose chain sync has (not yet) delivered the keyper set and / or the
+// eon key of the fixture's keyper config (the two arrive through independent event handlers).
+func NewAccessNodeWith(_ context.Context, fx *Fixture, withSet, withKey bool) (*AccessNode, error) {
 	a := &AccessNode{stack: newStack(), Storage: gnosisaccessnode.NewStorage()}
 	cfg := &gnosisaccessnode.Config{InstanceID: fx.InstanceID, MaxNumKeysPerMessage: 500}
 	a.w.AddMessageHandler(gnosisaccessnode.NewDecryptionKeysHandler(cfg, a.Storage))
-	a.Storage.AddKeyperSet(fx.ConfigIndex, &obskeyperdatabase.KeyperSet{
-		KeyperConfigIndex:     int64(fx.ConfigIndex),
-		ActivationBlockNumber: int64(fx.ActivationBlock),
-		Keypers:               shdb.EncodeAddresses(fx.Addr),
-		Threshold:             int32(fx.T),
-	})
-	key := new(shcrypto.EonPublicKey)
-	if err := key.Unmarshal(fx.Keys.Public.Marshal()); err != nil {
-		return nil, err
+	if withSet {
+		a.Storage.AddKeyperSet(fx.ConfigIndex, &obskeyperdatabase.KeyperSet{
+			KeyperConfigIndex:     int64(fx.ConfigIndex),
+			ActivationBlockNumber: int64(fx.ActivationBlock),
+			Keypers:               shdb.EncodeAddresses(fx.Addr),
+			Threshold:             int32(fx.T),
+		})
 	}
-	a.Storage.AddEonKey(fx.ConfigIndex, key)
+	if withKey {
+		key := new(shcrypto.EonPublicKey)
+		if err := key.Unmarshal(fx.Keys.Public.Marshal()); err != nil {
+			return nil, err
+		}
+		a.Storage.AddEonKey(fx.ConfigIndex, key)
+	}
 	return a, nil
 }
 
